@@ -15,7 +15,7 @@ FIXED = [2, 3, 5, 7, 13, 64, 1023, 1024, 1025, 4095, 4096, 4097]
 
 def sample_files():
     out = []
-    for fn in sorted(glob.glob('/repo/test/*.ics')) + sorted(glob.glob('/repo/test/*.echs')):
+    for fn in sorted(glob.glob(os.environ.get('VERIF_REPO', '/repo') + '/test/*.ics')) + sorted(glob.glob(os.environ.get('VERIF_REPO', '/repo') + '/test/*.echs')):
         try:
             b = open(fn, 'rb').read()
         except OSError:
